@@ -36,11 +36,13 @@ var purityTexts = mustParse(`<<
   << <<"[", "[", FALSE>>, <<"Id", "x", FALSE>>, <<",", ",", FALSE>>, <<"Id", "undefined", FALSE>>, <<"]", "]", FALSE>> >>,
   << <<"(", "(", FALSE>>, <<"Num", <<FALSE, <<1>>, 33>>, FALSE>>, <<"+", "+", FALSE>>, <<"Num", <<FALSE, <<5>>, -1>>, FALSE>>, <<")", ")", FALSE>>, <<"-", "-", FALSE>>, <<"Num", <<FALSE, <<1>>, 33>>, FALSE>> >>,
   << <<"Id", "round", FALSE>>, <<"(", "(", FALSE>>, <<"Id", "x", FALSE>>, <<")", ")", FALSE>> >>,
-  << <<"(", "(", FALSE>>, <<"Id", "y", FALSE>>, <<")", ")", FALSE>>, <<".", ".", FALSE>>, <<"Id", "k", FALSE>> >> >>`).([]any)
+  << <<"(", "(", FALSE>>, <<"Id", "y", FALSE>>, <<")", ")", FALSE>>, <<".", ".", FALSE>>, <<"Id", "k", FALSE>> >>,
+  << <<"Id", "y", FALSE>>, <<".", ".", FALSE>>, <<"Id", "Name", FALSE>> >> >>`).([]any)
 
 var purityDatas = mustParse(`<< [x |-> <<"int", 2>>, y |-> <<"map", [k |-> <<"bool", TRUE>>]>>, fail |-> <<"func", "fail">>, crec |-> <<"func", "crec">>],
   [x |-> <<"dec", FALSE, <<2,5>>, -1>>, y |-> <<"map", [k |-> <<"int", 0>>]>>, fail |-> <<"func", "fail">>, crec |-> <<"func", "crec">>, t0 |-> <<"time", -719162, 0, 0>>],
-  [y |-> <<"nil">>, fail |-> <<"func", "fail">>, crec |-> <<"func", "crec">>] >>`).([]any)
+  [y |-> <<"nil">>, fail |-> <<"func", "fail">>, crec |-> <<"func", "crec">>],
+  [y |-> <<"rowA">>], [y |-> <<"rowB">>] >>`).([]any)
 
 // TreeDump renders a parsed source with everything a caller can see of it: node kinds, ids,
 // parents (by position), ranges, list ranges, token nodes, source bookkeeping.
